@@ -19,6 +19,7 @@ type GenOpts struct {
 	// ExcludeSample reports sample names that must not be followed by another line
 	// (known finding ipseckey-eats-line); called once per replaced draw.
 	LastOnlySamples map[string]bool
+	BanSamples      map[string]bool // samples that are never generated
 	OnExcluded      func(class string)
 	BigGenerate     bool // allow a $GENERATE at the 65 536-step limit
 	HostileLabels   bool // labels with arbitrary octets (escapes) in addition to plain ones
@@ -593,7 +594,7 @@ func GenZone(t *rapid.T, o GenOpts) *Zone {
 		st.DefTTL = u32p(z.DefTTL)
 	}
 	z.Items = g.items(st, 0, o.MaxItems)
-	if len(o.LastOnlySamples) > 0 {
+	if len(o.LastOnlySamples) > 0 || len(o.BanSamples) > 0 {
 		replaceNonLast(z, o)
 	}
 	return z
@@ -608,7 +609,7 @@ func replaceNonLast(z *Zone, o GenOpts) {
 	fix := func(items []Item) {
 		for i := range items {
 			it := &items[i]
-			if it.Kind == KRec && o.LastOnlySamples[it.RD.Sample] && i != len(items)-1 {
+			if it.Kind == KRec && (o.BanSamples[it.RD.Sample] || (o.LastOnlySamples[it.RD.Sample] && i != len(items)-1)) {
 				it.RD = RData{Type: 44, Sample: "SSHFP"}
 				if o.OnExcluded != nil {
 					o.OnExcluded("sample-followed:" + "IPSECKEY")
